@@ -142,6 +142,15 @@ func (p *Processor) ChargingDataCreate(
 	self := chf_context.GetSelf()
 	ueId := chargingData.SubscriberIdentifier
 
+	if chargingData.NfConsumerIdentification == nil {
+		logger.ChargingdataPostLog.Errorf("Charging data request of UE[%s] lacks nfConsumerIdentification", ueId)
+		problemDetails := &models.ProblemDetails{
+			Status: http.StatusBadRequest,
+			Cause:  "MANDATORY_IE_MISSING",
+		}
+		return nil, "", problemDetails
+	}
+
 	// Open CDR
 	// ChargingDataRef(charging session id):
 	// A unique identifier for a charging data resource in a PLMN
@@ -156,6 +165,7 @@ func (p *Processor) ChargingDataCreate(
 	}
 
 	ue.CULock.Lock()
+	defer ue.CULock.Unlock()
 	ue.NotifyUri = chargingData.NotifyUri
 
 	consumerId := chargingData.NfConsumerIdentification.NFName
@@ -164,8 +174,6 @@ func (p *Processor) ChargingDataCreate(
 	}
 	cdr, err := p.OpenCDR(chargingData, ue, chargingSessionId, false)
 	if err != nil {
-		// Lock in line 158
-		ue.CULock.Unlock()
 		problemDetails := &models.ProblemDetails{
 			Status: http.StatusBadRequest,
 		}
@@ -174,8 +182,6 @@ func (p *Processor) ChargingDataCreate(
 
 	err = p.UpdateCDR(cdr, chargingData)
 	if err != nil {
-		// Lock in line 158
-		ue.CULock.Unlock()
 		problemDetails := &models.ProblemDetails{
 			Status: http.StatusBadRequest,
 		}
@@ -184,7 +190,6 @@ func (p *Processor) ChargingDataCreate(
 
 	ue.Cdr[chargingSessionId] = cdr
 	ue.Records = append(ue.Records, ue.Cdr[chargingSessionId])
-	ue.CULock.Unlock()
 
 	if chargingData.OneTimeEvent {
 		err = p.CloseCDR(cdr, false)
